@@ -117,3 +117,68 @@ pub fn dump_all<'tcx>(tcx: TyCtxt<'tcx>) -> J {
     }
     J::Arr(out)
 }
+
+
+/// Explicit panic sites (`panic!`, `todo!`, `unimplemented!`, `unreachable!`) in the available MIR of every impl
+/// of the traits named in $FACTGEN_EXTERN_TRAITS (dependency crates: generic impls carry MIR in metadata).
+pub fn extern_panics<'tcx>(tcx: TyCtxt<'tcx>) -> J {
+    use rustc_middle::mir::{Const, Operand, TerminatorKind};
+    let wanted = std::env::var("FACTGEN_EXTERN_TRAITS")
+        .unwrap_or_else(|_| "rpsl::expr::eval::Evaluate,rpsl::expr::eval::Resolver".to_string());
+    let wanted: Vec<&str> = wanted.split(',').filter(|s| !s.is_empty()).collect();
+    let mut out = Vec::new();
+    let mut analysed = Vec::new();
+    let mut opaque = Vec::new();
+    for tr in tcx.all_traits_including_private() {
+        let name = path_str(tcx, tr);
+        if !wanted.contains(&name.as_str()) {
+            continue;
+        }
+        for imp in tcx.all_impls(tr) {
+            if imp.is_local() {
+                continue;
+            }
+            for item in tcx.associated_items(imp).in_definition_order() {
+                if !matches!(item.kind, ty::AssocKind::Fn { .. }) {
+                    continue;
+                }
+                let did = item.def_id;
+                let fname = path_str(tcx, did);
+                if !tcx.is_mir_available(did) {
+                    opaque.push(J::s(fname));
+                    continue;
+                }
+                analysed.push(J::s(fname.clone()));
+                let body = tcx.optimized_mir(did);
+                for bb in body.basic_blocks.iter() {
+                    let term = bb.terminator();
+                    if let TerminatorKind::Call { func, args, .. } = &term.kind {
+                        if let Some((callee, _)) = func.const_fn_def() {
+                            let cname = path_str(tcx, callee);
+                            if cname.starts_with("core::panicking::") || cname.starts_with("std::rt::begin_panic") {
+                                let mut msg = String::new();
+                                for a in args.iter() {
+                                    if let Operand::Constant(c) = &a.node {
+                                        if let Const::Val(..) | Const::Unevaluated(..) | Const::Ty(..) = c.const_ {
+                                            msg = crate::util::disp_str(tcx, c.const_);
+                                        }
+                                    }
+                                }
+                                out.push(J::Obj(vec![
+                                    ("fn", J::s(fname.clone())),
+                                    ("trait", J::s(name.clone())),
+                                    ("panic_fn", J::s(cname)),
+                                    ("msg", J::s(msg)),
+                                    ("sp", span_j(tcx, term.source_info.span)),
+                                    ("snippet", J::s(tcx.sess.source_map().span_to_snippet(term.source_info.span.source_callsite()).unwrap_or_default())),
+                                    ("krate", J::s(tcx.crate_name(did.krate).to_string())),
+                                ]));
+                            }
+                        }
+                    }
+                }
+            }
+        }
+    }
+    J::Obj(vec![("sites", J::Arr(out)), ("analysed", J::Arr(analysed)), ("opaque", J::Arr(opaque))])
+}
